@@ -408,7 +408,7 @@ def creditConn (r : State × List Frame) (n : Nat) : State × List Frame :=
   if n > 0 then
     match Inflow.add r.1.connIn n with
     | .panic => ({ r.1 with panicked := true, closed := true }, r.2)
-    | .ok (ci, connAdd) => ({ r.1 with connIn := ci }, wuFrame 0 connAdd ++ r.2)
+    | .ok (ci, connAdd) => ({ r.1 with connIn := ci }, r.2 ++ wuFrame 0 connAdd)
   else r
 
 def close (st : State) (id : Nat) : State × List Frame :=
